@@ -1,0 +1,146 @@
+// Copyright Amazon.com, Inc. or its affiliates. All Rights Reserved.
+// SPDX-License-Identifier: Apache-2.0
+
+//! Verification model of the part of `hashbrown`'s API this crate uses. Only compiled by `cargo kani`
+//! (`cfg(kani)`), where `emf.rs` imports it under the name `hashbrown`.
+//!
+//! Any program that constructs a real `hashbrown::HashMap` is beyond what CBMC can process (it does not
+//! get past program instrumentation), so the Kani harnesses under `/verif` run the formatter against this
+//! insertion-ordered, `Vec`-backed map instead. The model has the same signatures and the same map
+//! semantics (one value per equivalent key); iteration order is insertion order, which is one of the
+//! orders a hash map may produce.
+
+use std::borrow::Borrow;
+
+/// Same contract as `hashbrown::Equivalent`
+pub(crate) trait Equivalent<K: ?Sized> {
+    fn equivalent(&self, key: &K) -> bool;
+}
+
+impl<Q: ?Sized, K: ?Sized> Equivalent<K> for Q
+where
+    Q: Eq,
+    K: Borrow<Q>,
+{
+    #[inline]
+    fn equivalent(&self, key: &K) -> bool {
+        PartialEq::eq(self, key.borrow())
+    }
+}
+
+#[derive(Clone)]
+pub(crate) struct HashMap<K, V> {
+    items: Vec<(K, V)>,
+}
+
+impl<K, V> HashMap<K, V> {
+    pub(crate) const fn new() -> Self {
+        HashMap { items: Vec::new() }
+    }
+
+    pub(crate) fn clear(&mut self) {
+        self.items.clear()
+    }
+
+    pub(crate) fn is_empty(&self) -> bool {
+        self.items.is_empty()
+    }
+
+    pub(crate) fn len(&self) -> usize {
+        self.items.len()
+    }
+
+    pub(crate) fn iter_mut(&mut self) -> impl Iterator<Item = (&K, &mut V)> {
+        self.items.iter_mut().map(|(k, v)| (&*k, v))
+    }
+
+    pub(crate) fn values_mut(&mut self) -> impl Iterator<Item = &mut V> {
+        self.items.iter_mut().map(|(_, v)| v)
+    }
+
+    pub(crate) fn entry_ref<'a, 'b, Q>(&'a mut self, key: &'b Q) -> hash_map::EntryRef<'a, 'b, K, Q, V>
+    where
+        Q: Equivalent<K> + ?Sized,
+    {
+        let mut found = None;
+        let mut i = 0;
+        while i < self.items.len() {
+            if key.equivalent(&self.items[i].0) {
+                found = Some(i);
+                break;
+            }
+            i += 1;
+        }
+        match found {
+            Some(index) => hash_map::EntryRef::Occupied(hash_map::OccupiedEntry {
+                slot: &mut self.items[index].1,
+            }),
+            None => hash_map::EntryRef::Vacant(hash_map::VacantEntryRef { map: self, key }),
+        }
+    }
+}
+
+pub(crate) mod hash_map {
+    use super::HashMap;
+
+    pub(crate) enum EntryRef<'a, 'b, K, Q: ?Sized, V> {
+        Occupied(OccupiedEntry<'a, V>),
+        Vacant(VacantEntryRef<'a, 'b, K, Q, V>),
+    }
+
+    pub(crate) struct OccupiedEntry<'a, V> {
+        pub(super) slot: &'a mut V,
+    }
+
+    pub(crate) struct VacantEntryRef<'a, 'b, K, Q: ?Sized, V> {
+        pub(super) map: &'a mut HashMap<K, V>,
+        pub(super) key: &'b Q,
+    }
+
+    impl<'a, V> OccupiedEntry<'a, V> {
+        pub(crate) fn get(&self) -> &V {
+            self.slot
+        }
+
+        pub(crate) fn get_mut(&mut self) -> &mut V {
+            self.slot
+        }
+
+        fn into_mut(self) -> &'a mut V {
+            self.slot
+        }
+    }
+
+    impl<'a, 'b, K, Q: ?Sized, V> VacantEntryRef<'a, 'b, K, Q, V> {
+        pub(crate) fn insert(self, value: V) -> &'a mut V
+        where
+            K: From<&'b Q>,
+        {
+            self.map.items.push((K::from(self.key), value));
+            let last = self.map.items.len() - 1;
+            &mut self.map.items[last].1
+        }
+    }
+
+    impl<'a, 'b, K, Q: ?Sized, V> EntryRef<'a, 'b, K, Q, V> {
+        pub(crate) fn or_insert(self, default: V) -> &'a mut V
+        where
+            K: From<&'b Q>,
+        {
+            match self {
+                EntryRef::Occupied(entry) => entry.into_mut(),
+                EntryRef::Vacant(entry) => entry.insert(default),
+            }
+        }
+
+        pub(crate) fn or_insert_with<F: FnOnce() -> V>(self, default: F) -> &'a mut V
+        where
+            K: From<&'b Q>,
+        {
+            match self {
+                EntryRef::Occupied(entry) => entry.into_mut(),
+                EntryRef::Vacant(entry) => entry.insert(default()),
+            }
+        }
+    }
+}
